@@ -86,14 +86,7 @@ package s2
 
 // ---- functions outside the decoder boundary (float geometry, index build): used through assumed contracts
 
-//@ func NewShapeIndex() *ShapeIndex
-//@   assumed "index bookkeeping is verified under C13; here only: returns a fresh non-nil index"
-//@   ensures result != nil && vcFresh(result)
-
-//@ func (s *ShapeIndex) Add(shape Shape) int32
-//@   assumed "verified under C13"
-//@   requires s != nil
-//@   modifies *s
+// NewShapeIndex and (*ShapeIndex).Add are used through their contracts in vc_state_verif.go (verified under C13).
 
 //@ func ExpandForSubregions(bound Rect) Rect
 //@   assumed "float-only computation on a value; cannot panic"
@@ -105,11 +98,6 @@ package s2
 
 //@ func (p *Polygon) initLoopProperties()
 //@   assumed "float geometry and index build on decoded coordinates: outside the decoder boundary"
-//@   requires p != nil
-//@   modifies *p
-
-//@ func (p *Polygon) initEdgesAndIndex()
-//@   assumed "index build: outside the decoder boundary"
 //@   requires p != nil
 //@   modifies *p
 
